@@ -94,6 +94,12 @@ def r1_dispatch(report, repo):
         x.ast.value, ast.Call)]
     if len(rets) == 1:
       handler = last_attr(rets[0].ast.value)
+      fexpr = rets[0].ast.value.func
+      if isinstance(fexpr, ast.Name):
+        # a bound method held in a local: what it stands for at this return
+        vals = lib.value_exprs(g, rets[0], fexpr)
+        if len(vals) == 1 and isinstance(vals[0], ast.Attribute):
+          handler = vals[0].attr
       args = [dotted(a_) for a_ in rets[0].ast.value.args]
       report.check(args == lib.param_names(f.node)[1:], rule, f.qualname,
                    rets[0].ast, rets[0].ast,
